@@ -59,6 +59,13 @@ def run(check, prog):
     # the field of a member must not depend on which members were computed
     # before it: no state may be carried between member calculations
     c01.f5_state(check, prog)
+    # polarisation linearity on the Python side: the lens theories rebuild the
+    # field from components along / across the polarisation; E(-p) = -E(p) is the
+    # delta = pi instance of the rotation rules (shared with C05)
+    from . import c05
+    tc = Canon(trig_expand=True)
+    c05.mielens_rotation(check, prog, tc)
+    c05.lens_rotation(check, prog, tc)
 
 
 def superposition(check, prog):
